@@ -35,20 +35,18 @@ SPEC = dict(
                 "neither defer_tick nor a cycle depends on the current tick only, whatever the earlier ticks were "
                 "(`tick_state_no_leak`, `tick_state_no_leak_run`); defer_tick and a tick cycle deliver exactly the previous "
                 "tick's content and nothing in the first tick (`deferTick_one_tick_later`, `tickCycle_one_tick_later`); "
-                "across_ticks(fold) continues from the previous tick's accumulator (`acrossTicks_accumulates`). "
-                "`tick_op_eq_list_op_sort_partial`: sort is proved to be a permutation equal to mergeSort under the element "
-                "order; that mergeSort's result is pairwise ordered is not re-proved here (partial). Tie: 54 tick programs "
+                "across_ticks(fold) continues from the previous tick's accumulator (`acrossTicks_accumulates`); sort returns a "
+                "permutation that is pairwise ordered by the element order, proved a total order (`tick_op_eq_list_op_sort`). Tie: 54 tick programs "
                 "(all operators, defer_tick, tick cycles, across_ticks) compiled through FlowBuilder::generate_embedded, run "
                 "tick by tick with random batches; every tick's output is diffed with the Lean driver and checked on the real "
                 "code against plain Rust iterators and against a fresh single-tick instance (state leak); (T) the lowering "
                 "table incl. tick_state_lifetime = 'tick and DeferTick -> defer_tick_lazy is re-extracted every run "
                 "(theorem lowering_table_matches of C28)."),
     level_note=("Trusted / not modelled: per-tick semantics of the DFIR operators transcribed by hand (tied by correspondence); "
-                "one tick cycle of element type i64 per program; max/min are instances of reduce; sortedness of sort (see "
-                "above); hash order of keyed fold output canonicalised by sorting; ticks are driven explicitly by "
+                "one tick cycle of element type i64 per program; max/min are instances of reduce; hash order of keyed fold output canonicalised by sorting; ticks are driven explicitly by "
                 "run_tick_sync (the lazy scheduling of defer_tick_lazy is outside this property)."),
     trusted_base=["per-tick semantics of DFIR operators with 'tick persistence transcribed from dfir_lang/src/graph/ops",
                   "harness/hv_hydro/gen_programs.py maps tick terms to Rust programs (reproducibility checked each run)",
-                  "core List.mergeSort as the specification of sort()"],
+                  "DFIR sort() modelled as List.mergeSort under Ord of i64/tuples"],
     assumptions=["closures passed to q!() are pure and total", "every tick is run explicitly (run_tick_sync) by the embedding code"],
 )
